@@ -47,6 +47,9 @@ type propSpec struct {
 	QuickDeadS float64
 	ThorDeadS  float64
 	Race       bool
+	// FatalIsViolation: an abnormal end of the worker process (hang, OOM, stack overflow) while evaluating a case is a
+	// violation of THIS property (C01, C19, C20); otherwise it is C01's business and the case is recorded as blocked.
+	FatalIsViolation bool
 }
 
 var props = map[string]propSpec{}
@@ -182,11 +185,11 @@ func loadKnown() []KnownFinding {
 }
 
 // matchKnownFatal: same rule as the worker's matcher, for violations the worker did not live to report.
-func matchKnownFatal(kfs []KnownFinding, prop, class string, cfg json.RawMessage) string {
+func matchKnownFatal(kfs []KnownFinding, prop, class string, cfg json.RawMessage, preds map[string]bool) string {
 	var c map[string]any
 	json.Unmarshal(cfg, &c)
 	for _, k := range kfs {
-		if k.Status != "known" || k.Property != prop || k.Pred != "" {
+		if k.Status != "known" || k.Property != prop || (k.Pred != "" && !preds[k.Pred]) {
 			continue
 		}
 		if ok, _ := regexp.MatchString(k.Class, class); !ok {
@@ -516,14 +519,14 @@ func check(prop, tier string) int {
 		class := "fatal:" + f.Kind + ":" + f.Stuck
 		v := Violation{Prop: prop, Class: class, Pass: loc.Pass, Input: loc.Input, Cfg: loc.Cfg, Tier: tier,
 			Detail: fmt.Sprintf("worker process ended abnormally (%s) in %s\n%s", f.Kind, f.Stuck, tail(f.StderrTail, 1500))}
-		if prop != "C01" {
+		if !spec.FatalIsViolation {
 			if blockedFatal[class] < 3 {
 				fmt.Printf("NOTE: blocked by a fatal end (%s) — C01's business: pass=%s input=%s cfg=%s\n", class, loc.Pass, clip(string(loc.Input), 200), loc.Cfg)
 			}
 			blockedFatal[class]++
 			continue
 		}
-		if kf := matchKnownFatal(kfs, prop, class, loc.Cfg); kf != "" {
+		if kf := matchKnownFatal(kfs, prop, class, loc.Cfg, loc.Preds); kf != "" {
 			addMap(&total.Known, map[string]int64{kf: 1})
 			if total.KnownWitness == nil {
 				total.KnownWitness = map[string]json.RawMessage{}
@@ -807,6 +810,7 @@ type located struct {
 	Pass  string          `json:"pass"`
 	Input json.RawMessage `json:"input"`
 	Cfg   json.RawMessage `json:"cfg"`
+	Preds map[string]bool `json:"preds"`
 }
 
 func locate(bin, prop, tier string, f fatal) *located {
